@@ -22,6 +22,7 @@ import (
 	"io"
 	"net"
 	"os"
+	"runtime"
 	"sort"
 	"strconv"
 	"strings"
@@ -321,6 +322,7 @@ type c37Seed struct {
 	kind   string
 	data   []byte
 	fields []int // offsets of length / size / count / start-code bytes
+	words  []int // offsets of the low 16 bits of multi-byte length fields (all 65536 values, thorough)
 	// derived
 	sub1 []c37Sub
 	hdr  []int // offsets that take part in pair substitutions
@@ -428,6 +430,30 @@ func c37OggFields(b []byte) []int {
 	return f
 }
 
+// c37OggWords: per page the (segment count, first lacing value) pair; in OpusTags the low words of the vendor length and the comment count.
+func c37OggWords(b []byte) []int {
+	var w []int
+	off := 0
+	for len(b)-off >= 27 {
+		nseg := int(b[off+26])
+		if nseg > 0 {
+			w = append(w, off+26)
+		}
+		size := 0
+		for i := 0; i < nseg; i++ {
+			size += int(b[off+27+i])
+		}
+		body := off + 27 + nseg
+		if size >= 16 && string(b[body:body+8]) == "OpusTags" {
+			vl := int(binary.LittleEndian.Uint32(b[body+8:]))
+			w = append(w, body+8, body+12+vl)
+		}
+		off = body + size
+	}
+
+	return w
+}
+
 func c37Seeds() []*c37Seed {
 	var seeds []*c37Seed
 
@@ -452,7 +478,11 @@ func c37Seeds() []*c37Seed {
 			fields = append(fields, off, off+1, off+2, off+3)
 			off += 12 + int(binary.LittleEndian.Uint32(data[off:]))
 		}
-		seeds = append(seeds, &c37Seed{name: "ivf-vp8-3frames", kind: "ivf", data: data, fields: fields})
+		words := []int{6}
+		for off := 32; off+12 <= len(data); off += 12 + int(binary.LittleEndian.Uint32(data[off:])) {
+			words = append(words, off)
+		}
+		seeds = append(seeds, &c37Seed{name: "ivf-vp8-3frames", kind: "ivf", data: data, fields: fields, words: words})
 	}
 
 	// Ogg A: single track written by OggWriter, packets with lacing 3 | 255+45 | 255+0
@@ -467,7 +497,7 @@ func c37Seeds() []*c37Seed {
 		}
 		c37Must(w.Close())
 		data := append([]byte(nil), buf.Bytes()...)
-		seeds = append(seeds, &c37Seed{name: "ogg-single-3packets", kind: "ogg", data: data, fields: c37OggFields(data)})
+		seeds = append(seeds, &c37Seed{name: "ogg-single-3packets", kind: "ogg", data: data, fields: c37OggFields(data), words: c37OggWords(data)})
 	}
 	// Ogg B: two tracks, family-255 mapping, user comments, nil EOS pages
 	{
@@ -483,7 +513,7 @@ func c37Seeds() []*c37Seed {
 		c37Must(t2.WriteRTP(&rtp.Packet{Header: rtp.Header{Version: 2, SSRC: 2}, Payload: []byte{0x03, 0x02, 9, 9, 9}}))
 		c37Must(w.Close())
 		data := append([]byte(nil), buf.Bytes()...)
-		seeds = append(seeds, &c37Seed{name: "ogg-two-tracks", kind: "ogg", data: data, fields: c37OggFields(data)})
+		seeds = append(seeds, &c37Seed{name: "ogg-two-tracks", kind: "ogg", data: data, fields: c37OggFields(data), words: c37OggWords(data)})
 	}
 
 	// H.264 Annex-B by hand: SPS, PPS, SEI, IDR, non-IDR with both start-code widths and an emulation-prevention pattern
@@ -532,13 +562,14 @@ func c37Seeds() []*c37Seed {
 		c37Must(w.WritePacket(rtpdump.Packet{Offset: 2 * time.Millisecond, IsRTCP: true, Payload: c37Fill(8, 2)}))
 		c37Must(w.WritePacket(rtpdump.Packet{Offset: 3 * time.Millisecond, Payload: []byte{0x80}}))
 		data := append([]byte(nil), buf.Bytes()...)
-		var fields []int
+		var fields, words []int
 		off := bytes.IndexByte(data, '\n') + 1 + 16
 		for off+8 <= len(data) {
 			fields = append(fields, off, off+1, off+2, off+3)
+			words = append(words, off, off+2)
 			off += int(binary.BigEndian.Uint16(data[off:]))
 		}
-		seeds = append(seeds, &c37Seed{name: "rtpdump-3records", kind: "rtpdump", data: data, fields: fields})
+		seeds = append(seeds, &c37Seed{name: "rtpdump-3records", kind: "rtpdump", data: data, fields: fields, words: words})
 	}
 
 	// header blobs for the exported parsers
@@ -548,8 +579,8 @@ func c37Seeds() []*c37Seed {
 	seeds = append(seeds,
 		&c37Seed{name: "opushead-family0", kind: "opushead", data: head0, fields: []int{9, 18}},
 		&c37Seed{name: "opushead-family255", kind: "opushead", data: head255, fields: []int{9, 18, 19, 20}},
-		&c37Seed{name: "opustags-2comments", kind: "opustags", data: tags, fields: []int{8, 9, 10, 11, 16, 17, 18, 19, 20, 21, 22, 23, 33, 34, 35, 36}},
-		&c37Seed{name: "rtpdump-record", kind: "rtpdump-packet", data: append([]byte{0, 12, 0, 4, 0, 0, 0, 5}, 1, 2, 3, 4), fields: []int{0, 1, 2, 3}},
+		&c37Seed{name: "opustags-2comments", kind: "opustags", data: tags, fields: []int{8, 9, 10, 11, 16, 17, 18, 19, 20, 21, 22, 23, 33, 34, 35, 36}, words: []int{8, 16, 20, 33}},
+		&c37Seed{name: "rtpdump-record", kind: "rtpdump-packet", data: append([]byte{0, 12, 0, 4, 0, 0, 0, 5}, 1, 2, 3, 4), fields: []int{0, 1, 2, 3}, words: []int{0, 2}},
 		&c37Seed{name: "rtpdump-header", kind: "rtpdump-header", data: []byte{0, 0, 0, 9, 0, 0, 0, 1, 127, 0, 0, 1, 0x13, 0x8c, 0, 0}},
 	)
 
@@ -578,7 +609,7 @@ func c37Seeds() []*c37Seed {
 		}
 		// pair region: the first 64 bytes and the fields, at most 96 offsets
 		for off := range s.data {
-			if (off < 64 || isField[off]) && len(s.hdr) < 96 {
+			if (off < 64 || isField[off]) && len(s.hdr) < 128 {
 				s.hdr = append(s.hdr, off)
 			}
 		}
@@ -595,7 +626,7 @@ type c37Case struct {
 	Seed   string
 	Target string
 	Mode   string
-	Kind   string // "trunc", "sub1", "sub2"
+	Kind   string // "trunc", "sub1", "sub2", "word"
 	Trunc  int
 	Off1   int
 	Val1   int
@@ -607,7 +638,7 @@ type c37Job struct {
 	seed   *c37Seed
 	target int
 	mode   int
-	pairs  bool
+	pairs  bool // thorough: pair substitutions and 16-bit sweeps
 	base   int64
 	n      int64
 }
@@ -621,7 +652,7 @@ func (j *c37Job) nPairs() int64 {
 func (j *c37Job) count() int64 {
 	n := int64(len(j.seed.data)+1) + int64(len(j.seed.sub1))
 	if j.pairs {
-		n += j.nPairs() * 25
+		n += j.nPairs()*25 + int64(len(j.seed.words))*65536
 	}
 
 	return n
@@ -643,6 +674,15 @@ func (j *c37Job) decode(k int64, modeName, targetName string) c37Case {
 		return cs
 	}
 	k -= int64(len(j.seed.sub1))
+	if np := j.nPairs() * 25; k >= np {
+		k -= np
+		off := j.seed.words[k/65536]
+		cs.Kind = "word"
+		cs.Off1, cs.Val1 = off, int(k%65536)>>8
+		cs.Off2, cs.Val2 = off+1, int(k%65536)&0xff
+
+		return cs
+	}
 	pair, v := k/25, k%25
 	// unrank the pair (a < b) over hdr offsets
 	h := int64(len(j.seed.hdr))
@@ -709,6 +749,9 @@ type c37Env struct {
 	skipped  atomic.Int64
 	poisoned []atomic.Bool // per target: a hang was confirmed, remaining cases are skipped
 	poisonN  atomic.Int64
+	seedRead sync.Map       // "seed|target|mode" -> true when the unmodified seed was read to its end
+	nanos    []atomic.Int64 // per target: time spent (reported, never judged)
+	ncases   []atomic.Int64
 }
 
 func (e *c37Env) locate(i int64) (*c37Job, int64) {
@@ -740,7 +783,7 @@ func (e *c37Env) execCase(cs c37Case, seed *c37Seed, ti, mode int, count bool) {
 	if tg.kind == "ivf" {
 		alloc := c37IVFAlloc(data)
 		limit := e.allocCap
-		if cs.Kind == "sub2" {
+		if cs.Kind == "sub2" || cs.Kind == "word" {
 			limit = 16 << 20
 		}
 		if alloc > limit {
@@ -755,6 +798,11 @@ func (e *c37Env) execCase(cs c37Case, seed *c37Seed, ti, mode int, count bool) {
 	}
 	if count {
 		c.Eval()
+		t0 := time.Now()
+		defer func() {
+			e.nanos[ti].Add(int64(time.Since(t0)))
+			e.ncases[ti].Add(1)
+		}()
 	}
 	st := &c37Stream{data: data, mode: mode}
 	res := &c37Res{}
@@ -788,6 +836,11 @@ func (e *c37Env) execCase(cs c37Case, seed *c37Seed, ti, mode int, count bool) {
 	}
 	if !count {
 		return
+	}
+	if cs.Kind == "trunc" && cs.Trunc == len(seed.data) && res.opened && res.problem == "" && (tg.blob || res.calls >= 2 || mode == c37DataErr) {
+		// (data+EOF shape: the Annex-B readers drop bytes delivered together with io.EOF and report EOF at once;
+		// that is data loss, not a crash or hang, and outside this property)
+		e.seedRead.Store(cs.Seed+"|"+cs.Target+"|"+cs.Mode, true)
 	}
 	if res.opened && res.calls > 0 {
 		calls := res.calls
@@ -894,13 +947,16 @@ func TestVerifC37(t *testing.T) { //nolint:cyclop
 		"and every reader of its format (IVFReader; OggReader with checksum, with checksum after the page CRCs were recomputed over the mutation, and without checksum; " +
 		"H264Reader/H265Reader with and without SEI; rtpdump.Reader; ParseOpusHead, ParseOpusTags, rtpdump Packet/Header.Unmarshal) and every io.Reader shape {whole, one byte per Read, data+EOF}: " +
 		"every truncation offset 0..len; every single-byte substitution by {00,01,7f,80,ff} at every offset and by all 256 values at offsets < 64 and at every length/size/count/start-code byte; " +
-		"thorough: every pair of substitutions by the 5 values over the header region (offsets < 64 plus the field bytes, <= 96 offsets). " +
+		"thorough: every pair of substitutions by the 5 values over the header region (offsets < 64 plus the field bytes, <= 128 offsets), and all 65536 values of the low 16 bits of every multi-byte length field " +
+		"(IVF header/frame sizes, Ogg segment count + first lacing value, OpusTags vendor length and comment count, rtpdump record length and packet length). " +
 		"Non-trivial: the reader accepted the header and made >= 1 unit call; distinct = (reader, stream shape, operator, calls made, final error)")
 	c.Assume("IVF inputs whose frame-size field forces an allocation above the cap (16 MiB; 128 MiB for truncations and single substitutions in the thorough tier) are not executed: make([]byte, uint32) is a legitimate allocation, not a crash, and costs seconds per GiB here; their count is reported as skipped_large_alloc")
 	c.Assume("no-return hangs are detected by a liveness guard (60 s per 64-case chunk, then 120 s for the case alone); everything else is decided without a clock")
 
 	env := &c37Env{c: c, t: t, targets: c37Targets(), seeds: map[string]*c37Seed{}}
 	env.poisoned = make([]atomic.Bool, len(env.targets))
+	env.nanos = make([]atomic.Int64, len(env.targets))
+	env.ncases = make([]atomic.Int64, len(env.targets))
 	env.allocCap = int64(c.Pick(16<<20, 128<<20))
 	seeds := c37Seeds()
 	for _, s := range seeds {
@@ -934,7 +990,6 @@ func TestVerifC37(t *testing.T) { //nolint:cyclop
 		return
 	}
 
-	// sanity: every unmodified seed is read completely by its readers (the seeds reach the code under test)
 	modes := []int{c37Whole, c37OneByte}
 	if !c.Quick() {
 		modes = append(modes, c37DataErr)
@@ -946,12 +1001,6 @@ func TestVerifC37(t *testing.T) { //nolint:cyclop
 			tg := &env.targets[ti]
 			if tg.kind != s.kind {
 				continue
-			}
-			st := &c37Stream{data: append([]byte(nil), s.data...)}
-			res := &c37Res{}
-			tg.run(st, res)
-			if !res.opened || res.problem != "" || (!tg.blob && res.calls < 2) {
-				vkit.Fatalf(t, "seed %s is not read by %s: %+v", s.name, tg.name, *res)
 			}
 			for _, mode := range modes {
 				if tg.blob && mode != c37Whole {
@@ -973,9 +1022,27 @@ func TestVerifC37(t *testing.T) { //nolint:cyclop
 		c.Sample(cs)
 	}
 
+	// A never-touched ballast raises the GC heap goal so that the large frame buffers some IVF
+	// inputs force are recycled inside the Go heap instead of being returned to the OS and
+	// page-faulted in again (costs no memory; speeds the run up, changes no verdict).
+	ballast := make([]byte, 512<<20)
 	env.runAll()
+	runtime.KeepAlive(ballast)
 
+	// sanity: every unmodified seed (the truncation at full length) was read completely by each of
+	// its readers, i.e. the seeds reach the code under test
+	for _, j := range env.jobs {
+		key := j.seed.name + "|" + env.targets[j.target].name + "|" + c37ModeNames[j.mode]
+		if _, ok := env.seedRead.Load(key); !ok && c.Violations() == 0 && !env.poisoned[j.target].Load() {
+			vkit.Fatalf(t, "the unmodified seed was not read to its end: %s", key)
+		}
+	}
 	c.Set("skipped_large_alloc", env.skipped.Load())
+	perTarget := map[string]any{}
+	for i := range env.targets {
+		perTarget[env.targets[i].name] = map[string]any{"cases": env.ncases[i].Load(), "cpu_s": float64(env.nanos[i].Load()) / 1e9}
+	}
+	c.Set("per_reader", perTarget)
 	if n := env.poisonN.Load(); n > 0 {
 		c.Set("skipped_after_confirmed_hang", n)
 		c.NotExhaustive(fmt.Sprintf("%d cases of a reader with a confirmed hang were not executed", n))
